@@ -125,8 +125,8 @@ pub fn run_case(case: &Case, names: &HashMap<String, u16>) {
         out.clear();
     }
     let mut tick: u64 = 0;
+    let mut o = String::new();
     let res = std::panic::catch_unwind(std::panic::AssertUnwindSafe(|| {
-        let mut o = String::new();
         let mut pending: Vec<String> = vec![];
         for tok in case.hist.iter() {
             let (kind, rest) = tok.split_at(1);
@@ -203,11 +203,11 @@ pub fn run_case(case: &Case, names: &HashMap<String, u16>) {
             (k.move_mouse_state_vertical.is_some() as u8) + (k.move_mouse_state_horizontal.is_some() as u8),
         )
         .unwrap();
-        o
     }));
     match res {
-        Ok(o) => out.push_str(&o),
+        Ok(()) => out.push_str(&o),
         Err(e) => {
+            out.push_str(&o);
             let msg = if let Some(s) = e.downcast_ref::<String>() {
                 s.clone()
             } else if let Some(s) = e.downcast_ref::<&str>() {
